@@ -217,7 +217,17 @@ impl Property for C12 {
             res.count("facts_asked", 1);
             let outs = match r {
                 Err(p) => {
-                    res.violation("prove-panic", format!("(prove {f}): {p}"));
+                    // the recorded finding needs a rule premise that looks a function up, and unions
+                    let lookup_premise = case.ops.iter().any(|o| o.starts_with("(rule") && o.contains("(= v") && o.contains("(f"));
+                    let unions = case.ops.iter().any(|o| o.contains("union") || o.starts_with("(rewrite") || o.starts_with("(birewrite"));
+                    let mut tag = String::new();
+                    if lookup_premise && unions {
+                        tag.push_str(" [history has a function-lookup premise and unions]");
+                    }
+                    if has_subsume {
+                        tag.push_str(" [history uses subsume]");
+                    }
+                    res.violation("prove-panic", format!("(prove {f}): {p}{tag}"));
                     return res;
                 }
                 Ok(Err(e)) => {
